@@ -52,6 +52,17 @@ class Org(Symbol):
 
 
 @dataclass(eq=False)
+class TwinOrg(Org):
+    """value-equal: two distinct instances with the same name compare equal and hash alike"""
+
+    def __eq__(self, o):
+        return isinstance(o, TwinOrg) and o.name == self.name
+
+    def __hash__(self):
+        return hash(("TwinOrg", self.name))
+
+
+@dataclass(eq=False)
 class Human(Symbol):
     name: int = 0
     works_for: Org = None
